@@ -7,6 +7,7 @@ import GuppyVerif.Lemmas.C12Bound
 import GuppyVerif.Lemmas.C12LinCompl
 import GuppyVerif.Lemmas.C12Call
 import GuppyVerif.Lemmas.C12CallIff
+import GuppyVerif.Lemmas.C12Fuel
 /-! # C12 — type inference finds an instantiation exactly when one exists
 
 Property theorems about `Model/Unify.lean` (the model of `unify`, `_unify_var`, `_occurs`, `_unify_args`,
@@ -89,11 +90,21 @@ theorem unify_flags_respected_partial (E : Env) (f : Nat) (fl₁ fl₂ : List Na
 
 /-- **Termination.**  On a consistent (acyclic) prior the recursion of `unify` is finite: some fuel `n`
     yields a proper outcome (a substitution or `None`), and every larger fuel yields the same outcome.
-    (Existence of the bound is proved by a lexicographic measure — unbound variables of the finite universe,
-    ranks, sizes; no closed formula for `n` is given.) -/
+    (Proved by a lexicographic measure — unbound variables of the finite universe, ranks, sizes; see
+    `unify_terminates_explicit` for a closed formula.) -/
 theorem unify_terminates (E : Env) (s t : Tm) (σ₀ : Subst) (h₀ : Acyclic σ₀) :
     ∃ n, unify E n s t σ₀ ≠ .oof ∧ ∀ m, n ≤ m → unify E m s t σ₀ = unify E n s t σ₀ :=
   unify_terminates_aux E s t σ₀ h₀
+
+/-- **Termination with an explicit fuel.**  `fuelBound s t σ₀` — a polynomial in the number of variables, the
+    number of bindings and the total size of the terms in play (see `Model/Unify.lean`) — bounds the recursion
+    depth of `unify` on every consistent prior: with that fuel, or more, the outcome is a substitution or `None`,
+    and it is the same outcome.  The model driver runs with exactly this fuel. -/
+theorem unify_terminates_explicit (E : Env) (s t : Tm) (σ₀ : Subst) (h₀ : Acyclic σ₀) (n : Nat)
+    (hn : fuelBound s t σ₀ ≤ n) :
+    unify E n s t σ₀ ≠ .oof ∧ unify E n s t σ₀ = unify E (fuelBound s t σ₀) s t σ₀ :=
+  ⟨unify_fuelBound E s t σ₀ h₀ n hn,
+   unify_mono E hn s t σ₀ (unify_fuelBound E s t σ₀ h₀ _ (Nat.le_refl _))⟩
 
 /-- Fuel only decides whether an outcome is reached, never which one. -/
 theorem unify_fuel_irrelevant (E : Env) (s t : Tm) (σ₀ : Subst) (n m : Nat)
@@ -329,6 +340,11 @@ example : NoLinear {} ∧ (Tm.node .tuple [.targ (.var 2)]).wf = true ∧ WfSubs
     Unifies (fun _ => .atom (.num 2)) (.node .tuple [.targ (.var 2)]) (.node .tuple [.targ (.atom (.num 2))]) :=
   ⟨noLinear_default, rfl, fun _ _ h => by simp [lookup] at h, ⟨fun _ => 0, fun _ _ h => by simp [lookup] at h⟩,
    fun _ _ h => by simp [lookup] at h, rfl⟩
+
+/-- the explicit bound on the concrete run above (actual recursion depth there: 5) -/
+example : fuelBound (.node .tuple [.targ (.var 2), .targ (.var 0)])
+    (.node .tuple [.targ (.node .tuple [.targ (.atom (.num 2))]), .targ (.var 4)])
+    [(4, .node .tuple [.targ (.var 6)])] = 2091 := by decide
 
 /-- acyclicity cannot be dropped: on the cyclic substitution the unrepaired code used to return
     (`{?0 ↦ (?2), ?2 ↦ (?0)}`, D5) a further `unify(?0, ?2, σ)` never reaches an outcome -/
